@@ -85,6 +85,13 @@ def cases(tier):
         q = dict(sp)
         q['_family'] = 'c06'
         out.append(q)
+    # delays below the resolution of a large clock value (now + d == now): valid, must not trip an internal assertion
+    c01 = importlib.import_module('vk.checks.c01')
+    for p in c01.cases('quick'):
+        if isinstance(p.get('start'), (int, float)) and p.get('start', 0) >= 10 ** 9:
+            q = dict(p)
+            q['_family'] = 'c01'
+            out.append(q)
     out += race_family()
     return out
 
